@@ -1167,6 +1167,14 @@ def ends_candidate(r: R, chk, piece_fn: str, curve_fn: str, rule="ENDS-CANDIDATE
                 out |= {seg(x) for x in e.elts}
             elif isinstance(e, ast.Name):
                 out.add(e.id)
+                # a sample `np.linspace(lo, hi, n)` contains both of its ends
+                for a2 in ast.walk(ctx.fi.node):
+                    if isinstance(a2, ast.Assign) and len(a2.targets) == 1 and isinstance(a2.targets[0], ast.Name) and a2.targets[0].id == e.id:
+                        v2 = a2.value
+                        while isinstance(v2, ast.Call) and seg(v2.func) in ("tuple", "list", "set", "sorted") and v2.args:
+                            v2 = v2.args[0]
+                        if isinstance(v2, ast.Call) and seg(v2.func) == "np.linspace" and len(v2.args) >= 2 and not any(k.arg == "endpoint" for k in v2.keywords):
+                            out |= {seg(v2.args[0]), seg(v2.args[1])}
             else:
                 out.add(seg(e))
         return out
@@ -1199,6 +1207,46 @@ def ends_candidate(r: R, chk, piece_fn: str, curve_fn: str, rule="ENDS-CANDIDATE
     chk.ob(rule, f"{piece_fn}: both ends of the piece are candidates on every path", ok, loc=r.loc(ctx, fi.node),
            detail="" if ok else f"{piece_fn}: the candidate set starts empty and receives `{lim[0] if lim else 'umin'}` / `{lim[1] if lim else 'umax'}` only when a Newton iterate happens to leave the interval; when every start converges to an interior stationary point (a maximum of the distance included) the ends are never compared, although the minimum over a closed interval can be at an end: parabola y = x**2 on [-1, 1] and P = (0, 10) returns u = 1/2 (distance 10, the maximum) instead of u = 0, 1 (distance 9.06)",
            func=piece_fn, construct="interval ends not among the candidates")
+
+
+def candidates_only(r: R, chk, piece_fn: str, rule="CANDIDATES-ONLY"):
+    """Every returned interior parameter that is not a knot has to be a stationary point of the distance.  The candidates
+    among which the nearest is selected are therefore the two ends of the piece and what the Newton iteration returns — the
+    start samples themselves are not candidates: one that lies within the 1e-6 distance band of the true foot would be
+    returned next to it although it is not stationary."""
+    ctx = r.root(piece_fn)
+    fi = ctx.fi
+    lim = None
+    for a in ast.walk(fi.node):
+        if isinstance(a, ast.Assign) and isinstance(a.targets[0], ast.Tuple) and len(a.targets[0].elts) == 2 and "limits" in seg(a.value):
+            lim = tuple(e.id for e in a.targets[0].elts if isinstance(e, ast.Name))
+    colls = set()
+    for R_ in [n for n in r.stmt_nodes(ctx) if isinstance(n.ast, ast.Return) and n.ast.value is not None]:
+        e = R_.ast.value
+        while isinstance(e, ast.Call) and seg(e.func) in ("tuple", "list", "sorted", "set") and e.args:
+            e = e.args[0]
+        if isinstance(e, ast.Name):
+            colls.add(e.id)
+    chk.floor(rule, f"candidate collection returned by {piece_fn}", len(colls), 1)
+    n = 0
+    for c in sorted(colls):
+        firsts = [a for a in ast.walk(fi.node) if isinstance(a, ast.Assign) and len(a.targets) == 1 and isinstance(a.targets[0], ast.Name) and a.targets[0].id == c]
+        if not firsts:
+            continue
+        first = min(firsts, key=lambda a: a.lineno)
+        n += 1
+        v = first.value
+        while isinstance(v, ast.Call) and seg(v.func) in ("set", "list", "tuple") and len(v.args) <= 1:
+            if not v.args:
+                v = ast.Tuple(elts=[], ctx=ast.Load())
+                break
+            v = v.args[0]
+        ok = isinstance(v, (ast.Set, ast.List, ast.Tuple)) and all(isinstance(x, ast.Name) and lim and x.id in lim for x in v.elts)
+        chk.ob(rule, f"{piece_fn}: the candidates `{c}` start from the ends of the piece only", ok, loc=r.loc(ctx, first),
+               detail="" if ok else f"{piece_fn}: the candidate collection starts as `{seg(first.value, 40)}`: parameters that are neither an end of the piece nor the outcome of the Newton iteration (the start samples) are candidates — a sample within the 1e-6 distance band of the true foot is returned although it is not a stationary point of the distance, and for a polyline the answer is no longer exact",
+               func=piece_fn, construct="start samples among the candidates")
+    chk.floor(rule, "initial values of candidate collections", n, 1)
+    return n
 
 
 # ------------------------------------------------------------------------------------------------
